@@ -775,6 +775,9 @@ func totalSafely(c *Ctx, name string, fn func()) {
 	fn()
 }
 
+// totalModelBudgetDiv: divisor of the case budget for model groups whose driver side is slow.
+var totalModelBudgetDiv = map[string]int{}
+
 // totalLast holds the measurements of the most recent total.<decoder> execution (the
 // generator runs single-threaded and reads it right after c.Case).
 var totalLast totalOut
@@ -2752,7 +2755,14 @@ func areaTotal(c *Ctx) {
 	for _, n := range names {
 		n := n
 		sub := NewRng(r.U64())
+		// the list-based Lean models of some groups are slow on long inputs: smaller budgets there
+		// (quick tier), so that the whole property stays within its time box
+		full := c.N
+		if k, ok := totalModelBudgetDiv[n]; ok {
+			c.N = full / k
+		}
 		totalSafely(c, "model-generator-"+n, func() { totalModelGens[n](c, sub, seeds) })
+		c.N = full
 	}
 	totalMirrorToD(c, NewRng(r.U64()), emit)
 
